@@ -264,8 +264,9 @@ fn pidfd_binary() -> Option<std::path::PathBuf> {
 
 /// sub-process mode of the pidfd build: only the families in which `wait` matters
 fn run_sub(args: vcore::Args) -> ! {
+    let quick = args.tier == Tier::Quick;
     let fams: Vec<plan::Family> =
-        families::families(args.tier).into_iter().filter(|f| matches!(f.name, "status" | "output")).collect();
+        families::families(args.tier).into_iter().filter(|f| f.name == "status" || (f.name == "output" && !quick)).collect();
     let agg = explore_all(args.tier, &fams, &drivers());
     harness::cleanup_tmp();
     println!("{}", agg.to_json());
@@ -288,19 +289,25 @@ fn run_check(args: vcore::Args) -> ! {
     for t in ["Rout:P", "Rout:short", "Rout:full", "Rout:eof", "Rerr:eof", "WI:P", "WI:full", "WT:P", "WT:exit0", "WT:exit255", "WT:sig15", "WT:sig9", "WO:P", "WO:sig9", "Cout:part", "CI:full"] {
         rep.must_reach(t);
     }
+    // the pidfd wait path (compio-process feature linux_pidfd, nightly-gated) lives in a second build;
+    // it explores the wait-related families as a sub-process, concurrently with this one
+    let mut wait_paths = vec![VARIANT.to_string()];
+    let sub = pidfd_binary().map(|bin| {
+        let child = std::process::Command::new(&bin)
+            .arg("C20")
+            .arg(tier.name())
+            .arg("--sub")
+            .stdout(std::process::Stdio::piped())
+            .stderr(std::process::Stdio::inherit())
+            .spawn()
+            .unwrap_or_else(|e| vcore::machinery_error(&format!("cannot run {bin:?}: {e}")));
+        (bin, child)
+    });
     let mut aggs = vec![explore_all(tier, &fams, &drvs)];
     harness::cleanup_tmp();
-    // the pidfd wait path (compio-process feature linux_pidfd, nightly-gated) lives in a second build
-    let mut wait_paths = vec![VARIANT.to_string()];
-    match pidfd_binary() {
-        Some(bin) if aggs[0].machinery.is_empty() => {
-            let out = std::process::Command::new(&bin)
-                .arg("C20")
-                .arg(tier.name())
-                .arg("--sub")
-                .stderr(std::process::Stdio::inherit())
-                .output()
-                .unwrap_or_else(|e| vcore::machinery_error(&format!("cannot run {bin:?}: {e}")));
+    match sub {
+        Some((bin, child)) => {
+            let out = child.wait_with_output().unwrap_or_else(|e| vcore::machinery_error(&format!("waiting for {bin:?}: {e}")));
             let text = String::from_utf8_lossy(&out.stdout);
             let line = text.lines().rev().find(|l| l.starts_with('{')).unwrap_or("");
             match vcore::serde_json::from_str::<vcore::Value>(line) {
@@ -311,7 +318,6 @@ fn run_check(args: vcore::Args) -> ! {
                 Err(e) => vcore::machinery_error(&format!("pidfd sub-run of {bin:?} gave no result ({e}); exit status {:?}", out.status)),
             }
         }
-        Some(_) => {}
         None => rep.assume(
             "the pidfd wait path (compio-process feature linux_pidfd) was NOT explored in this run: no binary built with \
              `RUSTC_BOOTSTRAP=1 cargo build --release --features pidfd` found at $C20_PIDFD_BIN or <VERIF_ROOT>/.target/e_c20_pidfd/release/e_c20",
